@@ -4,6 +4,34 @@ import HumphreyModel.Model.Glob
 namespace Humphrey.Driver.C05
 open Humphrey Humphrey.Driver
 
+/-- `n` copies of `u` in front of `acc` (a loop: tail call, `u` is short or `n` is small). -/
+def repPrepend : Nat → List Char → List Char → List Char
+  | 0, _, acc => acc
+  | n + 1, u, acc => repPrepend n u (u ++ acc)
+
+/-- One run-length segment: `R<count>*<hex>` = `count` copies of the UTF-8 text `hex`; plain `<hex>` = one copy.
+Every segment is valid UTF-8 on its own. -/
+def parseSeg (s : List Char) : Option (Nat × List Char) :=
+  match s with
+  | 'R' :: rest =>
+    let digits := rest.takeWhile (· != '*')
+    match rest.dropWhile (· != '*') with
+    | '*' :: h => do
+      let n ← (String.ofList digits).toNat?
+      let u ← (unhexAux h []).bind utf8?
+      pure (n, u.toList)
+    | _ => none
+  | h => do
+    let u ← (unhexAux h []).bind utf8?
+    pure (1, u.toList)
+
+/-- A run-length encoded text: segments separated by `,` (the empty field is the empty text). Long repetitive
+strings (a wildcard that must absorb two million characters) stay a few bytes in the case line; the harness expands
+the same encoding the same way (`c05.rs::expand`). -/
+def expand (field : String) : Option (List Char) := do
+  let segs ← (field.splitOn ",").mapM (fun s => parseSeg s.toList)
+  pure (segs.foldr (fun (s : Nat × List Char) acc => repPrepend s.1 s.2 acc) [])
+
 def dispatch (fn : String) (args : List String) (impl : String) : Option Verdict :=
   match fn, args with
   -- `route`: the same question asked through `String::route_matches` (route.rs), the entry point routing uses
@@ -12,6 +40,13 @@ def dispatch (fn : String) (args : List String) (impl : String) : Option Verdict
     | some p, some t =>
       let m := boolStr (Glob.wildcardMatch p.toList t.toList)
       -- `wildcard_match_iff_glob` makes the model the spec: any other answer violates C05
+      some { model := m, spec := some (impl == m) }
+    | _, _ => some { model := "BADARGS" }
+  -- the same two entry points on run-length encoded (long) patterns and texts
+  | "router", [p, t] | "globr", [p, t] =>
+    match expand p, expand t with
+    | some p, some t =>
+      let m := boolStr (Glob.wildcardMatch p t)
       some { model := m, spec := some (impl == m) }
     | _, _ => some { model := "BADARGS" }
   | _, _ => none
